@@ -120,6 +120,15 @@ def discharge(prog, f, n, kind, pv):
         key = (f.name, hir.callee_name(n) or n.get("method"), desc)
         if key in REVIEWED:
             return "reviewed: " + REVIEWED[key]
+        # G9: String::from_utf8(buf).unwrap() where buf is the very buffer sourcemap's writer has just
+        # filled in this function (`.to_writer(&mut buf)`): whichever function that is
+        if desc == "call:from_utf8" and hir.call_args(rr):
+            buf = hir.local_of(hir.call_args(rr)[0])
+            if buf:
+                for w in hir.calls_in(f.body, name="to_writer"):
+                    wa = hir.call_args(w)
+                    if len(wa) > 1 and hir.local_of(wa[1]) == buf and "sourcemap" in ((w.get("callee") or {}).get("path") or "") + ((w.get("callee") or {}).get("resolved") or ""):
+                        return "G9: the bytes were just written by sourcemap's JSON writer (serde_json): always valid UTF-8"
         return None
     if kind == "index":
         base = hir.place(n["x"])
